@@ -45,9 +45,15 @@ func (w *vpFailWriter) Write(p []byte) (int, error) {
 	return m, errVPWriter
 }
 
+const vpC12Shapes = 5
+
 func vpC12Docs(k int) ([]*vpDoc, []*vpDoc) {
 	g := vpNewGen(0)
 	switch k {
+	case 3:
+		return []*vpDoc{g.doc(4, 0), g.doc(6, 1), g.doc(8, 2)}, []*vpDoc{g.doc(7, 0)}
+	case 4:
+		return []*vpDoc{g.doc(0, 0)}, []*vpDoc{g.doc(3, 0), g.doc(5, 1)}
 	case 0:
 		return []*vpDoc{g.doc(2, 0)}, []*vpDoc{g.doc(5, 0)}
 	case 1:
@@ -59,7 +65,11 @@ func vpC12Docs(k int) ([]*vpDoc, []*vpDoc) {
 
 // C12: the destination writer starts failing at byte offset k (symbolic).
 func vpH_C12_fail() {
-	a, b := vpC12Docs(vpChoice("shape", 3))
+	nshape := 3
+	if vpThorough() {
+		nshape = vpC12Shapes
+	}
+	a, b := vpC12Docs(vpChoice("shape", nshape))
 	sa, sb := vpBuild(a, 1025), vpBuild(b, 2)
 	work := vpChoice("workload", 3)
 	var ref bytes.Buffer
@@ -74,7 +84,11 @@ func vpH_C12_fail() {
 		default:
 			dr := roaring.New()
 			dr.Add(0)
-			bs := []int{0, 1, 7, 64}[vpChoice("bufsize", 4)]
+			sizes := []int{0, 1, 7, 64}
+			if vpThorough() {
+				sizes = []int{0, 1, 2, 3, 7, 16, 64, 300}
+			}
+			bs := sizes[vpChoice("bufsize", len(sizes))]
 			return Merge([]segment.Segment{sa, sb}, []*roaring.Bitmap{dr, nil}, bs).WriteTo(w, nil)
 		}
 	}
@@ -129,7 +143,11 @@ func (w *vpCloseWriter) Write(p []byte) (int, error) {
 
 // C12: the close channel is closed when k bytes have been written (k symbolic).
 func vpH_C12_cancel() {
-	a, b := vpC12Docs(vpChoice("shape", 3))
+	nshape := 3
+	if vpThorough() {
+		nshape = vpC12Shapes
+	}
+	a, b := vpC12Docs(vpChoice("shape", nshape))
 	sa, sb := vpBuild(a, 1025), vpBuild(b, 2)
 	dr := roaring.New()
 	dr.Add(0)
